@@ -11,6 +11,7 @@ import numpy as np
 
 from vf import common, gen, refmdp, refsolve
 
+SIBLING_EVERY = 3      # every n-th case is followed by a same-shape sibling problem/solver in the same process (vf/worker.py)
 LEVEL = "exploration"
 TECHNIQUE = "history monitor: every solve() call of a random call sequence checked against a numpy reference trajectory and the documented stop rule; composed vs single-call twin"
 COUNT_OBS_AS_EVALUATIONS = False
@@ -58,7 +59,41 @@ def gen_cases(seed, tier):
         cases.append(dict(kind="gen", spec=spec, solver=kind, test=test, gamma=g, epsilon=eps, period=period,
                           history=hist, max_batch_size=common.batch_choices(rng, spec["S"]),
                           clear=bool(rng.integers(0, 2)), devices=int(rng.choice(devs))))
+    # exact-arithmetic cases: the measure lands EXACTLY on the threshold at some sweep ("never reports convergence
+    # while the measure is at or above it"); epsilon is fixed in the worker from the exact reference trajectory
+    ne = 30 if tier == "quick" else 300
+    for i in range(ne):
+        kind, test = [("vi", "span"), ("vi", "max_diff"), ("sa", "span"), ("sa", "max_diff"), ("per", "span"), ("rvi", "span")][i % 6]
+        avg = "unichain" if kind in ("rvi", "per") else None
+        spec = gen.random_spec(rng, smin=2, smax=12, avg=avg, amax=4)
+        spec.update(dyadic=True, E=int(rng.choice([2, 4])), scale=1.0, init="none", intrew=False)
+        if spec["structure"] in ("determ", "dag"):
+            spec["structure"] = "dense"
+        g = 1.0 if kind == "rvi" else (float(rng.choice([0.5, 1.0])) if kind == "per" else 0.5)
+        period = int(rng.integers(2, 4)) if kind == "per" else 1
+        first = int(rng.integers(1, 8))
+        cases.append(dict(kind="gen", spec=spec, solver=kind, test=test, gamma=g, epsilon=None, exact_at=int(rng.integers(3, 10)),
+                          period=period, history=[first, 30] if i % 2 else [40],
+                          max_batch_size=common.batch_choices(rng, spec["S"]), clear=False, devices=1))
     return cases
+
+
+def _exact_epsilon(kind, test, P, R, g, v0, period, shape, want):
+    """-> (epsilon, n_star): epsilon such that the threshold equals the measure of sweep n_star exactly, where no
+    earlier sweep is below it and the next one is; None when this MDP offers no such sweep within the exact range."""
+    tr = refsolve.Trajectory(kind, P, R, g, v0, test=test, period=period, partition=shape)
+    for _ in range(13):
+        tr.step()
+    lo = period if kind == "per" else 1
+    for n in list(range(want, 12)) + list(range(want - 1, lo - 1, -1)):
+        m = tr.meas[n]
+        if not (np.isfinite(m) and m > 0 and tr.meas[n + 1] < m and all(tr.meas[j] >= m for j in range(lo, n))):
+            continue
+        # exactness: every iterate up to n+1 is a multiple of 2^-44 below 2^8 (so nothing was, or will be, rounded)
+        its = np.array(tr.iter[: n + 2])
+        if np.abs(its).max() < 256 and np.all(np.mod(its * 2.0 ** 44, 1.0) == 0) and np.mod(m * 2.0 ** 44, 1.0) == 0:
+            return float(m), n            # g in {0.5, 1}: threshold eps*(1-g)/g == eps, or eps itself
+    return None, None
 
 
 def run_case(case):
@@ -68,6 +103,8 @@ def run_case(case):
     P, R = refmdp.tables(nxt, rew, prob)
     S = R.shape[0]
     kind, test, g, eps = case["solver"], case["test"], case["gamma"], case["epsilon"]
+    if eps is None:
+        eps = 1.0           # exact-arithmetic case: placeholder until the boundary sweep is known (see below)
     kw = dict(gamma=g, epsilon=eps, max_batch_size=case["max_batch_size"])
     shuffled = kind == "sas"
     if shuffled:
@@ -89,6 +126,14 @@ def run_case(case):
     s = mk()
     shape, n_pad, part = common.partition_class(s)
     v0 = np.zeros(S) if t.get("init") is None else np.asarray(t["init"], dtype=float)
+    exact = bool(case["spec"].get("dyadic"))
+    n_star = None
+    if exact:
+        eps, n_star = _exact_epsilon(kind, test, P, R, g, v0, case.get("period"), shape, case["exact_at"])
+        if eps is None:
+            return dict(status="skip", reason="no_exact_boundary_sweep")
+        kw["epsilon"] = eps
+        s = mk()
     thr = eps if (g == 1.0 or kind in ("rvi", "per")) else eps * (1 - g) / g
     traj = refsolve.Trajectory(kind, P, R, g, v0, test=test, period=case.get("period"), partition=shape)
     vmag0 = float(np.abs(v0).max())
@@ -122,7 +167,7 @@ def run_case(case):
             if shuffled and traj.n >= len(orders):
                 break
             _, m = traj.step(order=np.asarray(orders[traj.n]).astype(int) if shuffled else None)
-            if refsolve.near_threshold(m, thr, traj.noise(traj.n)):
+            if not exact and refsolve.near_threshold(m, thr, traj.noise(traj.n)):
                 near = True
                 break
             if m < thr:
@@ -179,8 +224,9 @@ def run_case(case):
     hclass = ("continues-after-convergence" if after_conv else
               "crosses-convergence" if converged_before else
               "multi" if n_calls > 1 else "single")
-    return dict(status="ok", n_obs=n_calls, composed=bool(composed),
-                cls=[f"{'sas' if shuffled else kind}/{test}", "g=1" if g == 1.0 else gen.gamma_bucket(g), hclass, struct],
+    on_boundary = bool(exact and n_star is not None and traj.n > n_star and traj.meas[n_star] == thr)
+    return dict(status="ok", n_obs=n_calls, composed=bool(composed), exact_boundary=on_boundary,
+                cls=[f"{'sas' if shuffled else kind}/{test}" + ("/exact" if exact else ""), "g=1" if g == 1.0 else gen.gamma_bucket(g), hclass, struct],
                 batch_shape=list(shape), n_pad=n_pad)
 
 
@@ -233,6 +279,7 @@ def aggregate(records, cases):
         hc[r["cls"][2]] = hc.get(r["cls"][2], 0) + 1
     return dict(solve_calls_judged=sum(r["n_obs"] for r in ok),
                 composition_pairs=sum(1 for r in ok if r.get("composed")),
+                exact_boundary_cases=sum(1 for r in ok if r.get("exact_boundary")),
                 history_classes=hc)
 
 
@@ -245,6 +292,9 @@ def coverage_check(records, cases, tier):
         return f"only {calls} solve() calls judged (< {need_calls})"
     if comp < need_comp:
         return f"only {comp} composition pairs (< {need_comp})"
+    nb = sum(1 for r in ok if r.get("exact_boundary"))
+    if nb < (10 if tier == "quick" else 100):
+        return f"only {nb} cases in which the measure equalled the threshold exactly"
     hc = {r["cls"][2] for r in ok}
     for h in ("crosses-convergence", "continues-after-convergence", "multi"):
         if h not in hc:
